@@ -2,6 +2,7 @@ package props
 
 import (
 	"fmt"
+	"github.com/robfig/soy/data"
 	"os"
 	"path/filepath"
 
@@ -258,9 +259,15 @@ func checkC19(c C19Case) Verdict {
 				failing = []string{"{call ns.d1.t}", "{param x: $a /}", "{param y}", "content {$a}", "{/param}", "{/call}"}
 			}
 		}
+		// a fourth shape: an obligatory print directive (an application setting) rejects one value
+		strict := c.Fault >= 32
+		if strict {
+			depth = 0
+			failing = []string{"{'boom'}"}
+		}
 		// a third shape: the call itself fails while it evaluates a param value (after a content param)
 		alsoOK := -1
-		if (c.Fault/16)%2 == 1 {
+		if (c.Fault/16)%2 == 1 && !strict {
 			if depth > 0 {
 				failing = []string{"{call ns.d1.t}", "{param y}", "content {$a}", "{/param}", "{param x: $a.nokey.deeper /}", "{/call}"}
 				alsoOK = 4
@@ -311,7 +318,20 @@ func checkC19(c C19Case) Verdict {
 		if err != nil || pn != nil {
 			return bad(true, "bundle rejected: %v %v\n%s", err, pn, numbered(src))
 		}
+		if strict {
+			soyhtml.PrintDirectives["verifStrict"] = soyhtml.PrintDirective{Apply: func(v data.Value, _ []data.Value) data.Value {
+				if s, isStr := v.(data.String); isStr && s == "boom" {
+					panic("verifStrict: this value may not be printed")
+				}
+				return v
+			}, ValidArgLengths: []int{0}}
+			soyhtml.ObligatoryPrintDirectiveNames = []string{"verifStrict"}
+		}
 		rr := cb.render("ns.c19.main", map[string]ref.Value{"a": ref.I(1)}, map[string]ref.Value{"foo": ref.S("f")}, true)
+		if strict {
+			soyhtml.ObligatoryPrintDirectiveNames = nil
+			delete(soyhtml.PrintDirectives, "verifStrict")
+		}
 		if rr.panicked != nil {
 			return bad(true, "render panicked: %v", rr.panicked)
 		}
